@@ -265,6 +265,8 @@ def rule_d(ctx):
         ctx.ob("mailbox-not-clone", not m["impls"]["Clone"], "Mailbox is not Clone", ["adt Mailbox"])
 
 
+WITNESS = ['c16::mailbox']  # doctest filters in /verif/witness (thorough tier)
+
 RULES = [
     ("C12.a", "ordering floors and slot hand-over discipline", rule_a),
     ("C12.b", "notify pairing", rule_b),
